@@ -158,7 +158,7 @@ def correspondence(chk, binary, n):
     if not okx:
         chk.fail("correspondence:exact", "corr:exact-classes", "real gjInverse differs from exact rational arithmetic on dyadic matrices", ex, False)
     oks = int(summ.group(3)) == 0 and not selffails
-    chk.oblige("correspondence:spellings: in-place forms: gjInvert()/gjInvert(true)/invert() leave what gjInverse()/inverse() return; gjInverse(true) value = gjInverse(); "
+    chk.oblige("correspondence:spellings: in-place forms: gjInvert()/gjInvert(true)/invert() leave what gjInverse()/inverse() return; gjInverse(true)/(false), inverse(true)/(false), invert(false) values = the noexcept forms; "
                "M44.inverse() non-affine = gjInverse()  (%s in-process checks)" % summ.group(2), "correspondence", oks, selffails[:3] or None)
     chk.count(int(summ.group(2)), int(summ.group(2)))
     for l in selffails[:5]:
@@ -216,6 +216,8 @@ def residue(chk, binary, n):
             what = "%s jumps by more than %g*cond*eps*|X| when one last-column entry of an affine matrix moves by one ulp (fast path vs general path)" % (path, 2 * CBOUND)
         elif kind == "nonfinite":
             what = "%s returns inf/nan for a matrix with cond < 1/eps^2" % path
+        elif kind == "spelling":
+            what = "%s: the `bool singExc` body called with false returns something else than the noexcept body (duplicated code diverged)" % path
         elif kind == "lattice":
             what = ("%s on a small-integer matrix: an entry that is ONE division of exact quantities is not the correctly rounded adj/det "
                     "(or a singular integer matrix did not give the identity)" % path)
